@@ -57,7 +57,7 @@ class Stable(Harness):
             from ..core import SymInt
             return {"x": SymStr([ctx.fresh_char("w%d" % i, ((10, 10), (32, 32))) for i in range(n)]),
                     "width": SymInt(ctx.fresh_int("width", 40, 100))}
-        if t in ("empty", "seqUnits", "mixed", "casekeys"):
+        if t in ("empty", "seqUnits", "mixed", "casekeys", "dupgroups"):
             return {"x": SymStr([ctx.fresh_char("w%d" % i, ((10, 10), (32, 32))) for i in range(n)])}
         if t == "shaped":
             # a value of a fixed shape: d = every digit, s = + or -, the rest literal
@@ -118,6 +118,11 @@ class Stable(Harness):
             # parameter names that differ only in letter case inside a group (an object is present, so PDS3 keeps groups)
             return ("OBJECT = o" + w(0) + "x = 1" + w(1) + "END_OBJECT\nGROUP = g\n a = 1" + w(2) + "A = 2\n b = 3\nEND_GROUP\n"
                     "Key = 1\nKEY = 2\nEND\n")
+        if t == "dupgroups":
+            # sibling groups with equal names, no object: the first a valid PDS3 group, the later ones not (a block
+            # inside, keys differing in case) - the PDS3 encoder converts one of them
+            return ("GROUP = band" + w(0) + "c = 1" + w(1) + "END_GROUP\nGROUP = band" + w(2) + "w = 2\n GROUP = f" + w(3) +
+                    "x = 1\n END_GROUP\nEND_GROUP\nGROUP = band\n k = 1" + w(4) + "K = 2\nEND_GROUP\nv = 3\nEND\n")
         if t == "mixed":
             return "a = 2#101#" + w(0) + "b = 'x  y'" + w(1) + "c = -16#F#" + w(2) + "d = 1.50" + w(3) + "e = TRUE" + w(4) + "END"
         raise KeyError(t)
@@ -171,6 +176,7 @@ def obligations(tier):
         obs.append(Stable(encoder=e, template="mixed", n=5))
         obs.append(Stable(encoder=e, template="wrapquote", n=2))
         obs.append(Stable(encoder=e, template="casekeys", n=3))
+        obs.append(Stable(encoder=e, template="dupgroups", n=5))
         for sh in VALUE_SHAPES if not quick else VALUE_SHAPES[:8]:
             obs.append(Stable(encoder=e, template="shaped", n=0, shape=sh))
     return obs
